@@ -47,6 +47,12 @@ func runC16(c *Ctx) {
 	checkPlanOptsForwarded(c, "R16g")
 	c.Rule("R16h", ruleTextCloneQualifier, 2)
 	checkCloneQualifier(c, "R16h")
+	c.Rule("R16k", ruleTextTypeStmtIdent, 3)
+	checkTypeStmtIdent(c, "R16k")
+	c.Rule("R16l", ruleTextTypeTextQualified, 3)
+	checkTypeTextQualified(c, "R16l")
+	c.Rule("R16m", ruleTextPrefixUnconditional, 3)
+	checkPrefixUnconditional(c, "R16m")
 	c.Rule("R16j", ruleTextOptsForwarded, 2)
 	checkOptsForwarded(c, "R16j")
 	c.Rule("R16i", ruleTextScopeCoversKinds, 2)
